@@ -436,6 +436,8 @@ struct Local {
     violations: BTreeMap<String, ClassRec>,
     goals: BTreeMap<&'static str, u64>,
     errors: Vec<String>,
+    /// choice vector of the passing execution with the most choice points seen by this worker
+    longest: Vec<u32>,
 }
 
 fn values(t: &[Pt]) -> Vec<u32> {
@@ -569,6 +571,9 @@ fn worker<H: Harness + ?Sized>(sh: &Shared<'_, H>) -> Local {
         }
         match &r.verdict {
             Ok(Verdict::Pass(o)) => {
+                if r.trace.len() > loc.longest.len() {
+                    loc.longest = values(&r.trace);
+                }
                 if loc.outcomes.len() < sh.cfg.set_cap / sh.cfg.threads.max(1) {
                     loc.outcomes.insert(*o);
                 } else {
@@ -637,7 +642,11 @@ pub fn explore<H: Harness + ?Sized>(phase: &str, harness_cfg: serde_json::Value,
         hs.into_iter().map(|h| h.join().expect("worker died")).collect()
     });
     let mut st = Stats { phase: phase.to_string(), budget: cfg.budget, ..Default::default() };
+    let mut longest: Vec<u32> = Vec::new();
     for l in locals {
+        if l.longest.len() > longest.len() || (l.longest.len() == longest.len() && l.longest < longest) {
+            longest = l.longest.clone();
+        }
         merge_local(&mut st, l);
     }
     let left = sh.pending.load(Ordering::Acquire);
@@ -652,6 +661,9 @@ pub fn explore<H: Harness + ?Sized>(phase: &str, harness_cfg: serde_json::Value,
     // sample executions, fully written out: the all-default one, and the first few children
     if st.machinery_errors.is_empty() {
         let mut pre: Vec<Vec<u32>> = vec![vec![]];
+        if !longest.is_empty() {
+            pre.insert(0, longest);
+        }
         let r0 = exec_once(h, vec![], cfg, true, Some(vec![]));
         let mut devs_before = 0;
         for (i, p) in r0.trace.iter().enumerate() {
